@@ -11,10 +11,12 @@ func applyMatrixSlice(m gf2p16.Matrix, in, out [][]byte, outStart, outEnd, dataS
 		outSlice := out[i][dataStart:dataEnd]
 		c := m.At(i, 0)
 		inSlice := in[0][dataStart:dataEnd]
+		verifStep(outStart, outEnd, dataStart, dataEnd, i, 0)
 		gf2p16.MulByteSliceLE(c, inSlice, outSlice)
 		for j := 1; j < len(in); j++ {
 			c := m.At(i, j)
 			inSlice := in[j][dataStart:dataEnd]
+			verifStep(outStart, outEnd, dataStart, dataEnd, i, j)
 			gf2p16.MulAndAddByteSliceLE(c, inSlice, outSlice)
 		}
 	}
@@ -93,10 +95,13 @@ func applyMatrixParallelData(m gf2p16.Matrix, in, out [][]byte, numGoroutines in
 	}
 
 	var wg sync.WaitGroup
+	verifFork(numGoroutines, len(out), dataLength)
 	wg.Add(numGoroutines)
 	for i := 0; i < numGoroutines; i++ {
 		go func(i int) {
 			defer wg.Done()
+			verifEnter(i)
+			defer verifExit(i)
 			start := i * perGoroutineDataLength
 			end := start + perGoroutineDataLength
 			if end > dataLength {
@@ -106,5 +111,7 @@ func applyMatrixParallelData(m gf2p16.Matrix, in, out [][]byte, numGoroutines in
 		}(i)
 	}
 
+	verifJoin()
 	wg.Wait()
+	verifJoined()
 }
